@@ -499,6 +499,11 @@ LEAF_FAMILIES = [
     # word (order, android, ORigin, notify)
     (['order:1', 'android:1', 'ORigin:1', 'notify:1'],
      lambda on: ({}, dict((l.split(':')[0], 1) for l in on)), 4),
+    # local leaves and REFERENCES mixed in one expression (a 4th element
+    # names the helper rules the references point to)
+    (['role:ra', 'rule:qb', 'role:rc', 'rule:qd'],
+     lambda on: ({}, {'roles': [l.split(':')[1] for l in on]}), 4,
+     {'qb': 'role:qb', 'qd': 'role:qd'}),
 ]
 VOBJ_TRUE = ['yes', 1, [0], {'k': 0}]
 VOBJ_FALSE = ['', 0, None, []]
@@ -528,7 +533,9 @@ def _register_vobj():
 
 def run_S7(cx, job):
     _register_vobj()
-    leaf_texts, world_of, kmax = LEAF_FAMILIES[job['family']]
+    fam = LEAF_FAMILIES[job['family']]
+    leaf_texts, world_of, kmax = fam[:3]
+    job = dict(job, extra_rules=fam[3] if len(fam) > 3 else {})
     for tokens in lang.sentences(job['len']):
         k = tokens.count('L')
         if k > kmax:
@@ -550,8 +557,8 @@ def _s7_case(cx, job, tokens, leafs, world_of):
     ast = lang.parse(lang.lex(text))
     cx.acc.case('S7', k >= 2)
     try:
-        cx.enf.set_rules(cx.policy.Rules.from_dict({'p': text}),
-                         use_conf=False)
+        cx.enf.set_rules(cx.policy.Rules.from_dict(
+            dict(job.get('extra_rules') or {}, p=text)), use_conf=False)
     except Exception as e:
         cx.acc.violation('S7|load-raises', 'loading %r raised %r' %
                          (text, e), {'rule': text}, 'loads', repr(e),
